@@ -1,6 +1,6 @@
 (* Harness side of the crash/restart model (C04): run 1 killed or stopped, durable state inspected
    on disk, run 2 on the same job directory. *)
-From ZenoV Require Import Lib.Harness Pipe.CrashLts.
+From ZenoV Require Import Lib.Harness Pipe.CrashLts Pipe.CrashSeen.
 Open Scope N_scope.
 
 Record ccase := CC {
@@ -18,7 +18,8 @@ Record ccase := CC {
   k_exact : bool;            (* the kill was fired from a hook point, so the event log is complete *)
   k_missing : N;             (* acknowledged captures of seeds deleted in run 1 that are not among the complete records on disk *)
   k_midfile : N;             (* WARC files with a defect that is not a truncated tail *)
-  k_badfinish : N            (* seeds reported finished (either run) while a node of their tree still awaited fetching or post-processing *)
+  k_badfinish : N;           (* seeds reported finished (either run) while a node of their tree still awaited fetching or post-processing *)
+  k_sc : bool                (* the job runs with the local seencheck (no --disable-seencheck) *)
 }.
 
 Definition subset (a b : list N) : bool := forallb (fun x => mem x b) a.
@@ -41,7 +42,57 @@ Definition durable_agrees (c : ccase) : bool :=
   && (negb (k_kill c) ||
       forallb (fun r => negb (r_claimed r) || mem (r_id r) (k_claimed1 c) || negb (mem (r_id r) (present c))) (rows_pred c)).
 
-Definition diff_case (c : ccase) : bool := negb (durable_agrees c).
+(* ---- the second model (Pipe/CrashSeen.v) replays the observed history ----
+   run 1 as its event log tells it (hand-outs, seeds that entered the preprocessor, finish reports - a finished seed's own
+   URL counts as dealt with -, the delete batch), the kill or stop, the restart, then every row found on disk driven
+   through run 2 ([drive]: handed out, pre-processed, fetched unless the store says "seen", finished).  What the model
+   then says about run 2 is compared with what the real run 2 did, in the directions that are sound whichever side of
+   the seen-store write the kill fell on ([k_preprocessed] lists the seeds that ENTERED preprocess()):
+   - a row the model fetches again (it never entered the preprocessor, or the seencheck is off) was fetched again;
+   - with the seencheck on, a seed that was reported finished in run 1 but whose row was still on disk (the kill came
+     before its delete batch) is NOT fetched a second time: the store holds it (C08 across a restart). *)
+Definition uniq (l : list N) : list N :=
+  fold_right (fun x acc => if mem x acc then acc else x :: acc) [] l.
+
+Definition run1_labels (c : ccase) : list slabel :=
+  let worked := uniq (k_preprocessed c ++ k_finished1 c) in
+  [SClaim (uniq (k_claimed c ++ worked))]
+  ++ flat_map (fun id => [SInsert id; SPre id]) worked
+  ++ flat_map (fun id => [SCapture id; SFinish id]) (uniq (k_finished1 c))
+  ++ [SDelete (uniq (k_deleted1 c)); (if k_kill c then SCrash else SStop); SRestart].
+
+Definition after_run1 (c : ccase) : option sst := srun (sinit (k_sc c) (uniq (k_all c))) (run1_labels c).
+
+Definition run2_pred (c : ccase) : option (list N * list N) :=   (* (fetched again, skipped as seen) *)
+  match after_run1 c with
+  | Some s =>
+    match drive s (srow_list s) with
+    | Some s2 => let w1 := s_warc s in
+                 let fetched := skipn (length w1) (s_warc s2) in
+                 Some (fetched, filter (fun id => negb (mem id fetched)) (srow_list s))
+    | None => None
+    end
+  | None => None
+  end.
+
+(* rows must have been claimed before they were worked on and finished before they were deleted, or the log is not a
+   history of the model at all *)
+Definition log_wellformed (c : ccase) : bool :=
+  subset (k_deleted1 c) (k_finished1 c) && subset (k_finished1 c) (k_all c) && subset (k_preprocessed c) (k_all c)
+  && subset (k_claimed c) (k_all c).
+
+Definition seen_model_agrees (c : ccase) : bool :=
+  negb (log_wellformed c) ||
+  match run2_pred c with
+  | None => false                       (* the model cannot replay a well-formed observed history *)
+  | Some (fetched, skipped) =>
+    (* the model's durable rows after run 1 = the rows it would hand out again: all exist on disk or were finished *)
+    negb (k_complete2 c) ||
+    (forallb (fun id => negb (mem id (present c)) || mem id (k_preprocessed c) || mem id (k_fetched2 c)) fetched
+     && forallb (fun id => negb (k_sc c) || negb (mem id (k_finished1 c)) || negb (mem id (present c)) || negb (mem id (k_fetched2 c))) skipped)
+  end.
+
+Definition diff_case (c : ccase) : bool := negb (durable_agrees c) || negb (seen_model_agrees c).
 Definition diffs (l : list ccase) := bad_idx diff_case l.
 
 (* m0: nothing stays stranded: after the restart every remaining row is crawled and deleted *)
